@@ -1,8 +1,24 @@
 import AFV.Driver.Proto
+import AFV.Driver.C17
 namespace AFV.Driver.C20
 open Lean AFV.Proto
 
-/-- Handler for property C20 requests (stub: not implemented yet). -/
-def handle (_req : Json) : Json := err "unimplemented"
+private def pair? (j : Json) : Option (Int × Int) := do
+  let a ← intList? j
+  match a with
+  | [e, l] => some (e, l)
+  | _ => none
+
+/-- {"op":"frontOf","rows":[[E,L],…]} → the all-pairs Pareto front of the rows (as pairs). -/
+def handle (req : Json) : Json :=
+  match (field? req "op").bind getStr? with
+  | some "frontOf" =>
+    match (field? req "rows").bind getArr? with
+    | some arr =>
+      match arr.toList.mapM pair? with
+      | some rows => Json.arr ((AFV.Driver.C17.front2 rows).map (fun p => ofIntList [p.1, p.2])).toArray
+      | none => err "malformed"
+    | none => err "malformed"
+  | _ => err "bad-op"
 
 end AFV.Driver.C20
